@@ -83,7 +83,7 @@ func Print(t *Term, vars map[string]*Term) string {
 			if vars != nil {
 				vars[x.Name] = x
 			}
-			return x.Name
+			return SMTName(x.Name)
 		}
 		var b strings.Builder
 		b.WriteByte('(')
@@ -253,7 +253,7 @@ func (s *Solver) declare(vars map[string]*Term) {
 	sort.Strings(names)
 	for _, n := range names {
 		s.declared[n] = true
-		s.send(fmt.Sprintf("(declare-const %s %s)", n, sortStr(vars[n])))
+		s.send(fmt.Sprintf("(declare-const %s %s)", SMTName(n), sortStr(vars[n])))
 	}
 }
 
@@ -351,8 +351,11 @@ func (s *Solver) GetModel(vars []*Term) Model {
 	}
 	var sb strings.Builder
 	sb.WriteString("(get-value (")
+	smtBack := map[string]string{}
 	for _, v := range ask {
-		sb.WriteString(v.Name)
+		sn := SMTName(v.Name)
+		smtBack[sn] = v.Name
+		sb.WriteString(sn)
 		sb.WriteByte(' ')
 	}
 	sb.WriteString("))")
@@ -397,6 +400,9 @@ func (s *Solver) GetModel(vars []*Term) Model {
 			continue
 		}
 		name := toks[i+1]
+		if orig, ok := smtBack[name]; ok {
+			name = orig
+		}
 		val := toks[i+2]
 		switch {
 		case val == "true":
@@ -454,4 +460,18 @@ func tokenize(s string) []string {
 	}
 	flush()
 	return toks
+}
+
+// SMTName maps an input name to a safe SMT-LIB symbol (no reserved words).
+func SMTName(n string) string {
+	var sb strings.Builder
+	sb.WriteString("in_")
+	for _, ch := range n {
+		if (ch >= 'a' && ch <= 'z') || (ch >= 'A' && ch <= 'Z') || (ch >= '0' && ch <= '9') || ch == '_' {
+			sb.WriteRune(ch)
+		} else {
+			sb.WriteByte('_')
+		}
+	}
+	return sb.String()
 }
